@@ -16,6 +16,7 @@ from concurrent.futures import ThreadPoolExecutor
 
 from . import common
 from . import pipeline_common as pc
+from . import pipeline_cliargs
 from .common import log
 
 FAKE = """#!/bin/sh
@@ -27,7 +28,7 @@ case "$(basename "$0")" in fakelli-*) echo "fake-lli" ;; esac
 exit ${FAKE_EXIT:-0}
 """
 
-A_ONE = 'fn main() -> u8\n{\n\tprint!("hi\\n");\n\tvar r: u8 = 3;\n\treturn: r\n}\n'
+A_ONE = 'fn main() -> u8\n{\n\tprint!("hi\\n");\n\teprint!("ho\\n");\n\tvar r: u8 = 3;\n\treturn: r\n}\n'
 A_TWO = 'import "b.pn";\n\nfn main() -> u8\n{\n\tprint!("hi\\n");\n\tvar r: u8 = b_three();\n\treturn: r\n}\n'
 B_OK = "pub fn b_three() -> u8\n{\n\treturn: 3\n}\n"
 BAD = {"lex": "\tvar q: u8 = 1 @;\n", "sem": "\tvar q: u8 = nothing;\n"}
@@ -194,6 +195,9 @@ def compare(case, obs):
         prog = "hi\n" if real_lli else "fake-lli\n"
         if prog not in obs["stdout"]:
             out.append(("run-output", "the program's output %r is not passed through" % prog))
+        # ... and so is what the program writes to its standard error (one module: `eprint!("ho\n")` in main)
+        if real_lli and c["nmods"] == 1 and "ho\n" not in obs["stderr"]:
+            out.append(("run-output", "the program's standard error output 'ho' is not passed through"))
         if e["shows_status"] and ("Output: %d" % e["run_status"]) not in obs["stdout"]:
             out.append(("run-status", "exit status %d of the program is not shown: %r" % (e["run_status"], obs["stdout"][-120:])))
     # build: arguments of the backend
@@ -264,7 +268,10 @@ def compare_catalogue(case, obs, plain_tags, source):
         where = next(ln for ln in obs["text"].splitlines() if "\x1b" in ln)
         out.append(("color-never", "ESC bytes in the output under --color=never: %r" % where[:160]))
     if e["ascii"]:
-        foreign = sorted({ch for ch in ANSI.sub("", obs["text"]) if ord(ch) > 127 and ch not in source and ch != "\ufffd"})
+        # --verbose dumps the rebuilt intermediate code, which marks indentation with U+00A6 and poisoned nodes with U+2620
+        # (stdout.rs dump_code, rebuilder.rs): that is no drawing of arrows in error messages
+        dump_marks = "\u00a6\u2620" if case["cfg"].get("verb") == "verbose" else ""
+        foreign = sorted({ch for ch in ANSI.sub("", obs["text"]) if ord(ch) > 127 and ch not in source and ch != "\ufffd" and ch not in dump_marks})
         if foreign:
             out.append(("arrows-ascii", "non-ASCII characters %s (not part of the source) under --arrows=ascii" % foreign[:6]))
     return out
@@ -409,6 +416,10 @@ def run(rep, tier, seed, selftest):
                          {"case": case, "observed": {k: (v if not isinstance(v, str) else v[-800:]) for k, v in obs.items() if k != "ll"},
                           "ll_files": sorted(obs["ll"]), "message": msg, "how": "bin/check C18 --replay <this file>"})
     cat = catalogue(rep, penne, root, tier, findings)
+    # third part (CliArgs.tla): -o, backend / link arguments by flag and config file, broken config files and inputs, out dirs, fuzz
+    argspart = pipeline_cliargs.run_part(penne, root, tier, findings, selftest)
+    for note in argspart["notes"]:
+        rep.note_drift(note)
     # classified, not part of the product: an absolute input path (the property quantifies over relative ones)
     probe = os.path.join(root, "abs")
     os.makedirs(probe)
@@ -442,6 +453,7 @@ def run(rep, tier, seed, selftest):
         self_results["wrong_backend_detected"] = any(cl == "backend" for cl, _ in compare(other, obs))
         lost = dict(obs, ll={})
         self_results["missing_ll_file_detected"] = any(cl == "out-dir" for cl, _ in compare(case, lost))
+        self_results.update(argspart["selftests"])
         log("[selftest] %s" % json.dumps(self_results))
         for name, ok in self_results.items():
             if not ok:
@@ -450,12 +462,15 @@ def run(rep, tier, seed, selftest):
     coverage = {
         "states": r.distinct,
         "transitions": r.generated,
-        "traces_validated_against_impl": len(idx),
+        "traces_validated_against_impl": len(idx) + argspart["configurations"] + argspart["fuzz_configurations"],
         "samples": [{"cfg": canon(cases[i]["cfg"]), "expect": cases[i]["expect"]} for i in sample_idx],
-        "evaluations": len(idx),
-        "distinct_nontrivial": len(nontrivial),
+        "evaluations": len(idx) + argspart["configurations"] + argspart["fuzz_configurations"],
+        "distinct_nontrivial": len(nontrivial) + argspart["configurations"] + argspart["fuzz_configurations"],
         "rule": "TLC enumerates the full product of configurations of Cli.tla (%d) with the observables R prescribes; %s are replayed "
-                "against the real binary. Non-trivial = distinct configurations replayed." %
+                "against the real binary. Third part (CliArgs.tla): every base invocation with at most 2 (quick) / 3 (thorough) deviations among -o, "
+                "--backend-args / --link-args by flag and / or config file, wasm = true and broken config files, 1-3 input files in both orders, "
+                "unreadable inputs, out dirs that are missing / deep / a regular file, scheme paths, the same module twice, --color never under "
+                "NO_COLOR / TERM=dumb, plus the full product of `penne fuzz tokens`; all replayed. Non-trivial = distinct configurations replayed." %
                 (len(cases), "a pairwise cover plus a seeded sample" if tier == "quick" else "all of them"),
         "exhaustive": tier != "quick",
         "configurations_total": len(cases),
@@ -464,6 +479,7 @@ def run(rep, tier, seed, selftest):
         "agree": agree,
         "clauses_violated": findings.counts(),
         "catalogue": cat,
+        "arguments": argspart,
         "selftests": self_results,
     }
     assumptions = [
@@ -483,6 +499,8 @@ def replay(path):
     case = d["detail"]["case"]
     print("expect: ", json.dumps(case["expect"]))
     penne = pc.build_penne()
+    if d["detail"].get("part") in ("args", "fuzz"):
+        return pipeline_cliargs.replay(d["detail"], penne)
     if d["detail"].get("part") == "catalogue":
         root = os.path.join(common.WORK, "pipeline-cli-replay-%d" % os.getpid())
         os.makedirs(root, exist_ok=True)
